@@ -128,7 +128,7 @@ E('searchcomplement', lambda t: petl.searchcomplement(t, 'c', 'x'), stream=True)
 # ---- unpacks
 E('unpack', lambda t: petl.unpack(petl.convert(t, 'c', lambda v: v.split(',')), 'c', ['p', 'q']), stream=True)
 E('unpackdict', lambda t: petl.unpackdict(petl.convert(t, 'c', lambda v: {'p': v}), 'c', keys=['p']), stream=True)
-E('unpackdict-sample-nondict', lambda t: petl.unpackdict(petl.convert(t, 'c', lambda v: {'p': v} if v != 'x,y' else None), 'c', samplesize=2),
+E('unpackdict-sample-nondict', lambda t: petl.unpackdict(petl.convert(t, 'c', lambda v: {'p': v} if v != 'z,w' else None), 'c', samplesize=2),
   hdr=('a', 'b'), stream=True, look=2)
 E('unpackdict-sample', lambda t: petl.unpackdict(petl.convert(t, 'c', lambda v: {'p': v}), 'c', samplesize=2),
   hdr=('a', 'b'), stream=True, look=2)
